@@ -59,3 +59,32 @@ func TestSyntaxErrors(t *testing.T) {
 		}
 	}
 }
+
+func TestDeviationModels(t *testing.T) {
+	cases := []struct {
+		p    string
+		o    Options
+		s    string
+		want bool
+	}{
+		{`[^]`, Options{AnyClassMax: 0x1FFFF}, "\U0002000B", false},
+		{`[^]`, Options{AnyClassMax: 0x1FFFF}, "\U0001F600", true},
+		{`[]`, Options{AnyClassMax: 0x1FFFF}, "\U0002000B", true},
+		{`\uD83D\uDE00`, Options{SplitSurrogatePairs: true}, "\U0001F600", false},
+		{`a|\uD83D\uDE00?`, Options{SplitSurrogatePairs: true}, "", false},
+		{`\p{Lu}`, Options{PropertyAsLiteral: true}, "Z", false},
+		{`\p{Lu}`, Options{PropertyAsLiteral: true}, "p{Lu}", true},
+		{`^\P{L}?$`, Options{PropertyAsLiteral: true}, "P{L", true},
+		{`[\p{Lu}]`, Options{PropertyAsLiteral: true}, "{", true},
+	}
+	for _, c := range cases {
+		p, err := ParseOpts(c.p, c.o)
+		if err != nil {
+			t.Errorf("ParseOpts(%q): %v", c.p, err)
+			continue
+		}
+		if got, ok := p.TestString(c.s); !ok || got != c.want {
+			t.Errorf("%q %+v on %q: got %v want %v", c.p, c.o, c.s, got, c.want)
+		}
+	}
+}
